@@ -337,6 +337,10 @@ class Engine:
     def ev_Tuple(self, e, st):
         return self._display(e, st, False)
 
+    def ev_Set(self, e, st):
+        # set displays occur only as membership tables here
+        return self._display(e, st, False)
+
     def ev_List(self, e, st):
         outs = []
         for s0, v in self._display(e, st, True):
@@ -668,6 +672,8 @@ class Engine:
             return z3.BoolVal(static[v.kind] == c.name)
         if isinstance(v, Tup):
             return z3.BoolVal(c.name == ("list" if v.is_list else "tuple"))
+        if isinstance(v, Opaque) and v.tag.startswith("sentinel:") and c.name in ("tuple", "list", "str", "int", "bool", "dict"):
+            return z3.BoolVal(False)
         if isinstance(v, (Opaque,)) or isinstance(v, Z):
             return z3.Function("py_type_is_cls_" + c.name, U, BOOL)(self.as_u(st, v))
         raise Unsupported(f"type({v}) is {c}")
